@@ -190,7 +190,7 @@ SPEC = {
     'range_of': ('r', '''        requires range_ok(range), wf(*self),
         ensures match range {
             NumericRange::None => r is Ok && r->Ok_0 == *self,
-            NumericRange::MultipleRanges(_) => r == Err::<Variant, StatusCode>(StatusCode::BadIndexRangeNoData),
+            NumericRange::MultipleRanges(_) => r is Err      /* which status is not part of the property */,
             _ => match *self {
                 Variant::Array(a) => ({
                     let start = match range { NumericRange::Index(i) => i, NumericRange::Range(min, _) => min, _ => 0 };
@@ -198,11 +198,11 @@ SPEC = {
                         // exactly the addressed elements, as a well-typed array of the same element type
                         r is Ok && is_array_of(r->Ok_0, a.value_type, read_of(a.values@, range)) && wf(r->Ok_0)
                     } else {
-                        r == Err::<Variant, StatusCode>(StatusCode::BadIndexRangeNoData)
+                        r is Err      /* which status is not part of the property */
                     }
                 }),
                 Variant::String(_) | Variant::ByteString(_) => true,   // Variant::substring (units c32_range / Kani)
-                _ => r == Err::<Variant, StatusCode>(StatusCode::BadIndexRangeNoData),
+                _ => r is Err      /* which status is not part of the property */,
             },
         },'''),
     'set_value_range': ('r', '''        requires range_ok(index_range), wf(value),
